@@ -535,10 +535,12 @@ def record_and_validate(rep, cols, nkeys, nvals, steps, seed, crash=0, label="",
     return res
 
 
-def record_mt_and_validate(rep, cols, nkeys, commits, seed, label="", readers=3, committers=2, reads=600):
+def record_mt_and_validate(rep, cols, nkeys, commits, seed, label="", readers=3, committers=2, reads=600, spin=False):
     out = os.path.join(vcore.scratch(), "tracemt_%s.ndjson" % label)
     args = {"out": out, "cols": json.dumps(cols), "nkeys": nkeys, "commits": commits, "seed": seed,
             "readers": readers, "committers": committers, "reads": reads}
+    if spin:
+        args["spin"] = True
     p = vcore.pdbh("pdb-record-mt", args)
     summary = json.loads(p.stdout.strip().splitlines()[-1])
     for pr in summary.get("problems", []):
@@ -849,6 +851,12 @@ def c05(tier):
                 open_win = False
             elif e.get("e") == "GetRet" and open_win:
                 inwin += 1
+    # btree columns: a lookup is a chain of dependent reads (header, root, inner nodes, leaf, value) that has to see ONE
+    # state of the log overlay; 40 keys (several nodes, splits and merges, nodes changing their size tier and address),
+    # readers that never pause, so that a record is published in the middle of a lookup at almost every commit
+    for j in range(6 if thorough else 2):
+        record_mt_and_validate(rep, [{"kind": "btree_rc" if j % 3 == 2 else "btree", "noempty": True}], 40, 300, SEED * 907 + j,
+                               label="c05bt%d" % j, reads=8000, spin=True)
     rep.extra["reads_completed_while_a_reindex_batch_was_being_planned"] = inwin
     if inwin < 100:
         raise ToolError("threaded growth runs: only %d reads fell into a reindex window: vacuous" % inwin)
